@@ -408,7 +408,7 @@ Definition in_cleanup (f : cfault) : bool :=
   | KCall (m, t) =>
     match m with
     | MGetWorkloads | MPSetUsage | MRemoveWorkload | MERemove | MUnlock => true
-    | MWCommit => match t with TEvent (EvLambda _) => true | _ => false end
+    | MWCommit => true                  (* a WAL commit that fails cannot be compensated *)
     | MCreateLock | MLock =>
       match t with
       | TLock (LWl _) => true
@@ -445,6 +445,33 @@ Definition c30_step_ok (before : snap) (st : step) : bool :=
   | _ => true
   end.
 
+(* a fault that hits a compensating (rollback) call.  With a single injected fault a rollback
+   only runs after the fault has fired, so such a placement means a natural failure came first
+   (e.g. an engine that refuses to remove a running container): two failures, outside the
+   single-fault quantifier ("compensating steps succeed"). *)
+Definition compensation_fault (o : op) (f : cfault) : bool :=
+  match f_key f with
+  | KSend => false
+  | KCall (m, t) =>
+    let later := negb (Nat.eqb (f_ord f) 0) in
+    match o, m with
+    | ORemove _ _, MAddWorkload => true
+    | ORemove _ _, MPSetUsage => later
+    | ODissociate _, MPSetUsage => later
+    | ORealloc _ _, MPRollbackRealloc => true
+    | ORealloc _ _, MUpdateWorkload => later
+    | OCreate _ _ _ _ _, (MPRollbackAlloc | MRemoveWorkload | MERemove) => true
+    | OLambda _ _ _ _ _ _ _, MPRollbackAlloc => true
+    | OAddNode _ _ _, MPRemoveNode => true
+    | OSetNode _ _ _ _, MPSetCapacity => later
+    | OReplace _ ids, MEStart => match t with TWid i => existsb (wid_eqb i) ids | _ => false end
+    | OReplace _ ids, (MAddWorkload | MEStop) => false
+    | _, _ => false
+    end
+  end.
+Definition in_scope (c : case) : bool :=
+  forallb (fun st => match s_fault st with Some f => negb (compensation_fault (s_op st) f) | None => true end) (c_steps c).
+
 Definition empty_snap : snap := mkSnap [] [] [] [] [] [] 0 0 0.
 
 Fixpoint fold_steps (f : snap -> step -> bool) (before : snap) (l : list step) : bool :=
@@ -453,7 +480,7 @@ Fixpoint fold_steps (f : snap -> step -> bool) (before : snap) (l : list step) :
   | st :: rest => f before st && fold_steps f (o_snap st) rest
   end.
 
-Definition ok_c10 (c : case) : bool := forallb (fun st => c10_snap_ok (o_snap st)) (c_steps c).
-Definition ok_c11 (c : case) : bool := fold_steps c11_step_ok empty_snap (c_steps c).
-Definition ok_c12 (c : case) : bool := fold_steps c12_step_ok empty_snap (c_steps c).
+Definition ok_c10 (c : case) : bool := negb (in_scope c) || forallb (fun st => c10_snap_ok (o_snap st)) (c_steps c).
+Definition ok_c11 (c : case) : bool := negb (in_scope c) || fold_steps c11_step_ok empty_snap (c_steps c).
+Definition ok_c12 (c : case) : bool := negb (in_scope c) || fold_steps c12_step_ok empty_snap (c_steps c).
 Definition ok_c30 (c : case) : bool := fold_steps c30_step_ok empty_snap (c_steps c).
